@@ -1,6 +1,9 @@
 """C16 - doc comments keep their text, tags and links."""
 import re
 
+import guards
+import rule_scopes
+
 from mirlib import AnchorMissing, path_matches, op_place, place_projs
 from helpers import (arm, aggregates, enum_switches, must_pass, vexpr, loop_of, origin_calls, calls_matching, sources_of)
 
@@ -317,6 +320,10 @@ def r_tag_blocks_extend_span(r, prog):
     r.floor(3)
 
 
+
+def r_lexer_preconditions(r, prog):
+    guards.evaluate(r, prog, rule_scopes.guards_comment_lexer, 'guards_comment_lexer.json', 35)
+
 def run(ctx):
     prog = ctx.prog
     ctx.run_rule('C16.1a', 'T6', 'link patcher: compute and apply loops cover the same node kinds = impls of Commentable', r_node_variants_agree, prog)
@@ -329,3 +336,4 @@ def run(ctx):
     ctx.run_rule('C16.5b', 'T3', 'line breaks are preserved', r_newlines_preserved, prog)
     ctx.run_rule('C16.5c', 'T4', 'tag blocks extend the comment span', r_tag_blocks_extend_span, prog)
     ctx.run_rule('C16.6', 'T5', 'return-list shapes have distinct tag checks', r_return_shapes, prog)
+    ctx.run_rule('C16.8', 'T13', 'conditions under which the doc comment lexer consumes, returns and switches modes (precondition ledger)', r_lexer_preconditions, prog)
